@@ -217,17 +217,31 @@ AdvanceA(i) ==
 
 ----------------------------------------------------------------------------
 (* storage threads (AsyncStorageWrites)                                       *)
-AppendThreadA(i) ==
+\* keep: the acknowledgements addressed to the node itself are not stepped at once but queued (in
+\* order) for LocalRespA; once something is queued, later acknowledgements queue up behind it
+AppendThreadA(i, keep) ==
   /\ Up(i) /\ app[i].appendQ # <<>>
+  /\ keep => Cnt("Defer") < Bound["Defer"]
   /\ LET m == Head(app[i].appendQ)
          hs == HS(m.term, m.vote, m.commit)
          d2 == IF m.snap.has THEN StAppend(PersistSnapHS(disk[i], m.snap, hs), m.entries)
                ELSE PersistSnapHS(StAppend(disk[i], m.entries), NoSnap, hs)
          self == SelectSeq(m.responses, LAMBDA r : r.to = i)
          out == SelectSeq(m.responses, LAMBDA r : r.to # i)
-         n2 == StepAllK(Cfg(i), node[i], d2, self, 1, RTO(i))
-     IN  Emit(i, [MkAct("AppendThread", i) EXCEPT !.msg = m, !.stepped = self, !.sent = out, !.k = 99], n2, d2,
-              [AppAfterSnap(app[i], m.snap) EXCEPT !.appendQ = Tail(@)], BagAddAll(net, out))
+         deferred == keep \/ app[i].localQ # <<>>
+         n2 == IF deferred THEN node[i] ELSE StepAllK(Cfg(i), node[i], d2, self, 1, RTO(i))
+     IN  Emit(i, [MkAct("AppendThread", i) EXCEPT !.msg = m, !.stepped = IF deferred THEN <<>> ELSE self, !.sent = out, !.k = 99,
+                                                   !.keep = deferred],
+              n2, d2,
+              [AppAfterSnap(app[i], m.snap) EXCEPT !.appendQ = Tail(@), !.localQ = IF deferred THEN @ \o self ELSE @],
+              BagAddAll(net, out))
+
+LocalRespA(i) ==
+  /\ Up(i) /\ app[i].localQ # <<>>
+  /\ LET m == Head(app[i].localQ)
+         n2 == StepAllK(Cfg(i), node[i], disk[i], <<m>>, 1, RTO(i))
+     IN  Emit(i, [MkAct("LocalResp", i) EXCEPT !.msg = m, !.stepped = <<m>>], n2, disk[i],
+              [app[i] EXCEPT !.localQ = Tail(@)], net)
 
 \* crash after `stages` durable writes of the queued append (0 = nothing, 1 = entries only)
 CrashInAppendA(i, stages) ==
@@ -236,7 +250,7 @@ CrashInAppendA(i, stages) ==
      /\ (m.snap.has => stages = 0)
      /\ Emit(i, [MkAct("CrashInAppend", i) EXCEPT !.msg = m, !.k = stages], DownNode,
              IF stages >= 1 THEN StAppend(disk[i], m.entries) ELSE disk[i],
-             [app[i] EXCEPT !.phase = "idle", !.rd = NoReady, !.appendQ = <<>>, !.applyQ = <<>>], net)
+             [app[i] EXCEPT !.phase = "idle", !.rd = NoReady, !.appendQ = <<>>, !.applyQ = <<>>, !.localQ = <<>>], net)
 
 ApplyThreadA(i) ==
   /\ Up(i) /\ app[i].applyQ # <<>>
@@ -264,7 +278,7 @@ CompactA(i, k) ==
 CrashA(i) ==
   /\ Up(i) /\ May("Crash", i)
   /\ Emit(i, MkAct("Crash", i), DownNode, disk[i],
-          [app[i] EXCEPT !.phase = "idle", !.rd = NoReady, !.appendQ = <<>>, !.applyQ = <<>>], net)
+          [app[i] EXCEPT !.phase = "idle", !.rd = NoReady, !.appendQ = <<>>, !.applyQ = <<>>, !.localQ = <<>>], net)
 
 \* admissible Config.Applied values (harness: Cluster.RestartRange)
 RestartHi(i) ==
@@ -326,7 +340,8 @@ Effect(i, a, rto, postDisk) ==
          LET m == Head(p.appendQ)
              d2 == PersistAppendMsg(d, m)
              self == SelectSeq(m.responses, LAMBDA r : r.to = i)
-         IN  [same EXCEPT !.n = StepAllK(c, n, d2, self, 1, rto), !.d = d2]
+         IN  [same EXCEPT !.n = IF a.keep THEN n ELSE StepAllK(c, n, d2, self, 1, rto), !.d = d2]
+    [] a.name = "LocalResp" -> [same EXCEPT !.n = StepAllK(c, n, d, <<Head(p.localQ)>>, 1, rto)]
     [] a.name = "CrashInAppend" ->
          [same EXCEPT !.n = DownNode, !.d = IF a.k >= 1 THEN StAppend(d, Head(p.appendQ).entries) ELSE d]
     [] a.name = "ApplyThread" ->
@@ -348,7 +363,8 @@ Next ==
   \/ \E i, j \in Node, ok \in BOOLEAN : ReportSnapshotA(i, j, ok)
   \/ \E m \in DOMAIN net : DeliverA(m, FALSE) \/ DeliverA(m, TRUE) \/ DropA(m)
   \/ \E i \in Node : ReadyA(i) \/ PersistEntriesA(i) \/ PersistHardStateA(i) \/ PersistSnapshotA(i)
-                     \/ SendA(i) \/ ApplyA(i) \/ AdvanceA(i) \/ AppendThreadA(i) \/ ApplyThreadA(i) \/ CrashA(i)
+                     \/ SendA(i) \/ ApplyA(i) \/ AdvanceA(i) \/ AppendThreadA(i, FALSE) \/ AppendThreadA(i, TRUE)
+                     \/ LocalRespA(i) \/ ApplyThreadA(i) \/ CrashA(i)
   \/ \E i \in Node, st \in {0, 1} : CrashInAppendA(i, st)
   \/ \E i \in Node, k \in 1..Bound["Index"] : SnapshotA(i, k) \/ CompactA(i, k) \/ RestartA(i, k)
 
